@@ -317,6 +317,11 @@ def observe(s: DScn) -> Observed:
     except Exception as e:
         ob.deferr = f"instantiation {type(e).__name__}: {e}"
         return ob
+    if getattr(s, "late_guards", None):
+        # an object attached later that offers some of the guard names too (one more provider of those guards: the
+        # declaration, which is what the diagram shows, is unchanged)
+        gvl = lambda n: s.guard_vals.get(n, True)
+        sm.add_listener(type("LateGuards", (), {n: _method(n, gvl(n)) for n in s.late_guards})())
     direct = default_style and s.via == "graph"
     cur = lambda: repr(sm.current_state_value)
     if sm.current_state_value is None:
